@@ -78,6 +78,9 @@ def wrapper_recipes():
     R.append(("xt-crop", lambda s: XTransformWrapper(make_ds("tensor"), transform=T.KDRandomCrop(size=8, padding=2), seed=s), ["x"]))
     R.append(("xt-nested", lambda s: XTransformWrapper(make_ds("tensor"), transform=nested(), seed=s), ["x"]))
     R.append(("xt-list", lambda s: XTransformWrapper(make_ds("tensor"), transform=[T.KDRandomHorizontalFlip(), T.KDColorJitter(0.4, 0.4, 0.2, 0.1)], seed=s), ["x"]))
+    R.append(("xt-list-p1", lambda s: XTransformWrapper(make_ds("tensor"), transform=[
+        T.KDRandomAdditiveGaussianNoise(std=0.5, p=1.0), T.KDRandomApply(transform=T.KDRandomCrop(size=12, padding=2), p=1.0),
+        T.KDRandomHorizontalFlip(p=0.0)], seed=s), ["x"]))
     R.append(("xt-patchwise", lambda s: XTransformWrapper(
         make_ds("tensor"), transform=T.PatchwiseTransform(patch_size=8, transform=T.KDRandomCrop(size=8, padding=2)), seed=s), ["x"]))
     R.append(("xt-scheduled", lambda s: XTransformWrapper(
@@ -258,6 +261,15 @@ class C08(PropertyCheck):
         order = [rng.randrange(n) for _ in range(n_access)] + list(range(n - 1, -1, -1))
         for step, i in enumerate(order):
             scramble(500 + step)
+            if step == n_access // 2 and label != "xt-scheduled":
+                # history: after some reads in the main process the same object is initialised as a dataloader worker would
+                # (its transforms get fresh generators from the global state) -- a seeded request must not notice
+                # (scheduled: once a worker is initialised the strength follows the schedule by design, C15)
+                try:
+                    w.worker_init_fn(0, batch_size=2, updates=10)
+                except Exception as e:
+                    return Failure(f"seeded:{label}:exception", f"{label}: worker_init_fn raises {type(e).__name__}: {e}", key_in, "no exception", str(e))
+                scramble(900 + step)
             it = items[step % len(items)]
             before = global_state()
             with RecordDefaultRng() as rec:
@@ -531,35 +543,54 @@ class C09(PropertyCheck):
         try:
             scramble(51)
             parent = build()
+        except Exception as e:
+            return Failure(f"worker:{label}:exception", f"construction of stack {label} raises {type(e).__name__}: {e}", key_in, "no exception", str(e))
+        f = self._oracle_round(label, parent, ws_list, num_workers, key_in, "")
+        if f is not None:
+            return f
+        # history: the same dataset object was initialised in the main process before (a run with num_workers=0, or a manual call),
+        # then workers are created from it -- each worker must still get its own stream derived from its seed
+        try:
+            np.random.seed(4242)
+            torch.manual_seed(4242)
+            parent.worker_init_fn(0, **WI_KW)
+        except Exception as e:
+            return Failure(f"worker:{label}:exception", f"worker init of stack {label} in the main process raises {type(e).__name__}: {e}", key_in,
+                           "no exception", str(e))
+        return self._oracle_round(label, parent, ws_list, num_workers, dict(key_in, after_main_process_init=True),
+                                  " (dataset object initialised once in the main process before)")
+
+    def _oracle_round(self, label, parent, ws_list, num_workers, key_in, hist):
+        try:
             parent_cells = all_cells(parent)
             workers = []
             for r, ws in enumerate(ws_list):
                 st = simulate_worker(parent, ws, r if num_workers is None else r % num_workers, num_workers)
                 workers.append(st)
         except Exception as e:
-            return Failure(f"worker:{label}:exception", f"worker init of stack {label} raises {type(e).__name__}: {e}", key_in, "no exception", str(e))
+            return Failure(f"worker:{label}:exception", f"worker init of stack {label} raises {type(e).__name__}: {e}{hist}", key_in, "no exception", str(e))
         parent_fp = {fingerprint(g) for g in parent_cells}
         fps = []
         for r, st in enumerate(workers):
             cells = all_cells(st)
             if len(cells) != len(parent_cells):
-                return Failure(f"worker:{label}:shape", f"{label}: number of cells changed by worker init", key_in, len(parent_cells), len(cells))
+                return Failure(f"worker:{label}:shape", f"{label}: number of cells changed by worker init{hist}", key_in, len(parent_cells), len(cells))
             f = [fingerprint(g) for g in cells]
             for j, fp in enumerate(f):
                 if fp in parent_fp:
                     return Failure(f"worker:{label}:stale-cell", f"{label}: after worker init (seed {ws_list[r]}) cell #{j} still replays the parent's "
-                                   "construction-time stream (not re-seeded in the worker)", dict(key_in, cell=j), "re-seeded", "parent stream")
+                                   f"stream (not re-seeded in the worker){hist}", dict(key_in, cell=j), "re-seeded", "parent stream")
             fps.append(f)
         for a in range(len(workers)):
             for b in range(a + 1, len(workers)):
                 same_seed = ws_list[a] == ws_list[b]
                 if same_seed:
                     if fps[a] != fps[b]:
-                        return Failure(f"worker:{label}:not-reproducible", f"{label}: equal worker seeds give different streams", key_in, "equal", "differ")
+                        return Failure(f"worker:{label}:not-reproducible", f"{label}: equal worker seeds give different streams{hist}", key_in, "equal", "differ")
                 else:
                     inter = set(fps[a]) & set(fps[b])
                     if inter:
-                        return Failure(f"worker:{label}:shared-stream", f"{label}: workers with seeds {ws_list[a]} and {ws_list[b]} share a member stream",
+                        return Failure(f"worker:{label}:shared-stream", f"{label}: workers with seeds {ws_list[a]} and {ws_list[b]} share a member stream{hist}",
                                        key_in, "disjoint", "shared")
         return None
 
